@@ -65,6 +65,12 @@ use std::num::TryFromIntError;
 pub enum Details {
     WriteBytes(IoError),
     FlushWriter(IoError),
+    WriteMarker(IoError),
+    ConvertUsizeToI64(TryFromIntError, usize),
+    FileHeaderAlreadyWritten,
+    Compress,        // projection of the codec-specific compression error variants
+    Decompress,      // projection of the codec-specific decompression error variants
+    HeaderBuild,     // projection of ConvertJsonToString and friends (Writer::header)
     IntegerOverflow,
     ReadVariableIntegerBytes(IoError),
     ZagI32(TryFromIntError, i64),
@@ -122,8 +128,13 @@ pub mod ax {
     pub broadcast proof fn axiom_question_mark_from_details(d: Details, e: Error)
         ensures #[trigger] vstd::std_specs::control_flow::spec_from::<Error, Details>(d, e) ==> e == (Error { details: Box::new(d) })
     {}
+    /// `?` on a Result whose error type is already `Error` uses the reflexive `impl From<T> for T` (identity)
+    #[verifier::external_body]
+    pub broadcast proof fn axiom_question_mark_identity(a: Error, b: Error)
+        ensures #[trigger] vstd::std_specs::control_flow::spec_from::<Error, Error>(a, b) ==> a == b
+    {}
 }
-broadcast use ax::axiom_question_mark_from_details;
+broadcast use {ax::axiom_question_mark_from_details, ax::axiom_question_mark_identity};
 
 // A4: endianness helpers on a little-endian target.
 pub assume_specification[u64::to_le](x: u64) -> (r: u64) ensures r == x;
@@ -147,3 +158,4 @@ pub fn slice_copy_from_slice(dst: &mut [u8], src: &[u8])
     requires old(dst)@.len() == src@.len(),      // std panics otherwise
     ensures final(dst)@ == src@,
 { dst.copy_from_slice(src) }
+pub assume_specification<T, A: std::alloc::Allocator>[<Vec<T, A> as AsRef<[T]>>::as_ref](v: &Vec<T, A>) -> (r: &[T]) ensures r@ == v@;
